@@ -463,7 +463,7 @@ func interesting(ts []int) bool {
 }
 
 func TestC07(t *testing.T) {
-	r := eng.Start("C07", "model_checking", 100*time.Second, 15*time.Minute)
+	r := eng.Start("C07", "model_checking", 240*time.Second, 15*time.Minute)
 	r.Assume("the four managers are constructed on one runner as in overlord.New (StartUp is never called); handlers of the studied kinds are replaced by gated stubs",
 		"two tasks of the same menu entry in independent changes are interchangeable (symmetry reduction on Ensure orders)",
 		"no failures/undo in this check (C01-C04 cover the runner's undo machinery)")
